@@ -457,6 +457,18 @@ Proof.
   - destruct (find_lfeat s e (Some f)); apply to_connected_nodgram; repeat constructor.
   - destruct (find_lfeat s e (Some f)) as [lf|]; [destruct (assoc_N fn (lf_data lf))|]; apply to_connected_nodgram; repeat constructor.
   - apply to_connected_nodgram. repeat constructor.
+  - (* LocalUnsubscribe *)
+    unfold local_unrequest. destruct (find_lfeat s e (Some f)) as [lf|]; [|apply to_connected_nodgram; repeat constructor].
+    destruct (fa_dev r); [|apply to_connected_nodgram; repeat constructor].
+    destruct (peer_by_addr s n) as [pe|] eqn:Ea; [|apply to_connected_nodgram; repeat constructor].
+    intros o q Ho Hd. simpl in Ho. destruct Ho as [<-|[<-|[]]]; simpl in Hd; inversion Hd; subst.
+    apply In_isconn. unfold peer_by_addr in Ea. apply find_some in Ea. tauto.
+  - (* LocalUnbind *)
+    unfold local_unrequest. destruct (find_lfeat s e (Some f)) as [lf|]; [|apply to_connected_nodgram; repeat constructor].
+    destruct (fa_dev r); [|apply to_connected_nodgram; repeat constructor].
+    destruct (peer_by_addr s n) as [pe|] eqn:Ea; [|apply to_connected_nodgram; repeat constructor].
+    intros o q Ho Hd. simpl in Ho. destruct Ho as [<-|[<-|[]]]; simpl in Hd; inversion Hd; subst.
+    apply In_isconn. unfold peer_by_addr in Ea. apply find_some in Ea. tauto.
 Qed.
 
 (* ================================================================ operations that leave registries and connections alone *)
@@ -464,7 +476,8 @@ Definition is_frame (o : op) : bool :=
   match o with
   | AddLocalEntity _ | AddLocalFeature _ _ _ | AddFunction _ _ _ _ _
   | SetData _ _ _ _ | Write _ _ _ _ _ _ _ | ListSubs _ | ListBinds _ | LocalSubscribe _ _ _ | LocalBind _ _ _
-  | HasLocalSub _ _ _ | HasLocalBind _ _ _ | ReadData _ _ _ | Resolve _ _ => true
+  | HasLocalSub _ _ _ | HasLocalBind _ _ _ | ReadData _ _ _ | Resolve _ _
+  | LocalUnsubscribe _ _ _ | LocalUnbind _ _ _ => true
   | _ => false
   end.
 
@@ -498,6 +511,12 @@ Proof.
   - destruct (find_lfeat s e (Some f)); repeat split; reflexivity.
   - destruct (find_lfeat s e (Some f)) as [lf|]; [destruct (assoc_N fn (lf_data lf))|]; repeat split; reflexivity.
   - repeat split; reflexivity.
+  - unfold local_unrequest. destruct (find_lfeat s e (Some f)) as [lf|]; [|repeat split; reflexivity].
+    destruct (fa_dev r); [|repeat split; reflexivity].
+    destruct (peer_by_addr s n); repeat split; reflexivity.
+  - unfold local_unrequest. destruct (find_lfeat s e (Some f)) as [lf|]; [|repeat split; reflexivity].
+    destruct (fa_dev r); [|repeat split; reflexivity].
+    destruct (peer_by_addr s n); repeat split; reflexivity.
 Qed.
 
 Lemma Inv_build s m o cn sr br cr :
@@ -873,4 +892,6 @@ Proof.
                             (fun x => eqb_optN (p_addr x) (Some d))).
     + apply G1.
     + intros pe Hpe. rewrite (inv_conn _ _ I), (In_isconn s pe Hpe). apply andb_true_r.
+  - (* LocalUnsubscribe *) rewrite Hsil. split; [apply Inv_frame; auto | reflexivity].
+  - (* LocalUnbind *) rewrite Hsil. split; [apply Inv_frame; auto | reflexivity].
 Qed.
